@@ -244,6 +244,9 @@ def shape_kind_ok(e: dict, g: str) -> bool:
         return g == "datetime"
     if k == "free_form":
         return True
+    if k == "union":
+        # every member model of the (possibly nested) union must still be named by the annotation
+        return all(f"ref:{m}" in g or f"fwd:{m}" in g for m in e["variants"])
     head, inner = split_kind(g)
     if k == "array":
         return head == "list" and shape_kind_ok(e["items"], inner)
